@@ -173,6 +173,9 @@ impl Accept {
         loop {
             // Take guard with every iteration so no new interests can be added until the current
             // task is done. Take care not to take the guard again inside this loop.
+            #[cfg(actix_net_verif)]
+            verif::yield_point(verif::Point::BeforePop);
+
             let mut guard = self.waker_queue.guard();
 
             #[allow(clippy::significant_drop_in_scrutinee)]
@@ -404,6 +407,9 @@ impl Accept {
 
     fn accept(&mut self, sockets: &mut [ServerSocketInfo], token: usize) {
         while self.avail.available() {
+            #[cfg(actix_net_verif)]
+            verif::yield_point(verif::Point::BeforeAccept(token));
+
             let info = &mut sockets[token];
 
             match info.lst.accept() {
